@@ -202,8 +202,9 @@ def xval(c):
 
 
 def inf_only(d):
-    """a numeric column whose non-null values are all +inf / -inf (known finding: still rejected /
-    NaN edges); failures on such columns carry the tag "inf_only" in the case and the clause"""
+    """a numeric column whose non-null values are all +inf / -inf.  Repaired in /repo commit b2b5cba
+    (one bin [min, max]); an ordinary valid input now.  The tag "inf_only" on a failing case / clause
+    is kept only to recognise a regression of that repair."""
     if d is None or is_string_type(d["ftype"]):
         return False
     cells = [c for c in numeric_cells(d) if c is not None]
